@@ -21,7 +21,8 @@ from sim import lifetimes, observe, worldgen
 from . import common
 
 HISTORY_OPS = ['copy', 'copy_deep', 'copy_module', 'pickle', 'hold_refs', 'hold_refs', 'drop_refs', 'gc', 'touch', 'load', 'key', 'key', 'memory_layout', 'memory_layout',
-               'print_options']
+               'print_options', 'dtype_spelling', 'other_byte_order']
+CREATES_HANDLE = ('copy', 'copy_deep', 'copy_module', 'pickle', 'dtype_spelling', 'other_byte_order')
 NONGEOM_EDITS = ['add_var', 'drop_var', 'alter_var', 'slice_time', 'global_attr', 'data_var_attr']
 GEOM_EDITS = ['value', 'dtype_same_bytes', 'shape_same_bytes', 'rename', 'attr_add', 'attr_change', 'attr_remove', 'convention', 'attr_array']
 
@@ -97,7 +98,7 @@ class KeySim:
                 kind = 'persist'
             op = {'op': kind, 'h': rng.randrange(n_handles), 'arg': rng.randrange(1000)}
             ops.append(op)
-            if kind in ('copy', 'copy_deep', 'copy_module', 'pickle', 'persist') or kind in NONGEOM_EDITS or kind in GEOM_EDITS:
+            if kind in CREATES_HANDLE + ('persist',) or kind in NONGEOM_EDITS or kind in GEOM_EDITS:
                 n_handles += 1
         p_fresh = 0.02 if not big else 0.008
         if world['conv'] == 'ugrid' and (len(world.get('tables') or []) >= 2 or world.get('face_coords')):
@@ -112,7 +113,7 @@ class KeySim:
             p = copy.deepcopy(plan)
             p['fresh_hashseeds'] = []
             yield p
-        creates = set(['copy', 'copy_deep', 'copy_module', 'pickle', 'persist'] + NONGEOM_EDITS + GEOM_EDITS)
+        creates = set(list(CREATES_HANDLE) + ['persist'] + NONGEOM_EDITS + GEOM_EDITS)
         for k in reversed(range(len(plan['ops']))):
             p = copy.deepcopy(plan)
             if plan['ops'][k]['op'] in creates:
@@ -159,6 +160,8 @@ class KeySim:
                 nontrivial = True
             elif kind == 'op':
                 out.stats[f'op.{payload["op"]}'] += 1
+            elif kind == 'probe':
+                out.stats[f"probe.{payload['name']}"] += 1
             elif kind == 'op_error':
                 out.violate('C16', 'key-raised' if payload['op'] == 'key' else 'op-raised', payload.get('frame'),
                             f"{payload['op']} raised {payload['exc']}: {res['obs'].get('msg%d' % payload['n'])}")
@@ -275,7 +278,8 @@ def _key_lifetime(ctx, plan, scratch):
             from emsarray.state import State
             if not State.get(ds).is_bound():
                 forced(ds).bind()
-        handles.append({'ds': ds, 'cls': cls, 'gv': list(gv), 'forced': forced})
+        handles.append({'ds': ds, 'cls': cls, 'gv': list(gv), 'forced': forced,
+                        'may_refuse': bool(src is not None and src < len(handles) and handles[src].get('may_refuse'))})
         h = len(handles) - 1
         if edit is not None:
             ctx.emit('geom_edit', parent=parent, h=h, edit=edit)
@@ -326,6 +330,11 @@ def _key_lifetime(ctx, plan, scratch):
             ctx.observe(f'key:{kid}', key)
         except Exception as e:
             info = observe.exc_info(e)
+            if handles[h].get('may_refuse'):
+                # an on-disk type spelled as a string / type object instead of a numpy.dtype: refusing it loudly is fine,
+                # accepting it must give the key of the same type spelled the usual way
+                ctx.emit('probe', name='key_refused_for_unusual_dtype_spelling')
+                return
             n_err[0] += 1
             ctx.observe('msg%d' % n_err[0], info['msg'])
             ctx.emit('op_error', op='key', exc=info['exc'], frame=info['frame'], n=n_err[0])
@@ -352,7 +361,14 @@ def _key_lifetime(ctx, plan, scratch):
         kind, h, arg = op['op'], op['h'], op['arg']
         if h >= len(handles) or handles[h]['ds'] is None:
             ctx.emit('skipped', k=k, op=kind)
-            if kind not in HISTORY_OPS or kind in ('copy', 'copy_deep', 'copy_module', 'pickle'):
+            if kind not in HISTORY_OPS or kind in CREATES_HANDLE:
+                handles.append({'ds': None, 'cls': None})
+            continue
+        if handles[h].get('fragile') and kind not in ('key', 'gc', 'hold_refs', 'drop_refs', 'touch', 'print_options'):
+            # a dataset in non-native byte order: numpy / pickle / netCDF hand back native arrays, i.e. another type; only
+            # operations that leave the object alone are meaningful on it
+            ctx.emit('skipped', k=k, op=kind)
+            if kind not in HISTORY_OPS or kind in CREATES_HANDLE:
                 handles.append({'ds': None, 'cls': None})
             continue
         ds, cls = handles[h]['ds'], handles[h]['cls']
@@ -393,6 +409,33 @@ def _key_lifetime(ctx, plan, scratch):
                     pass
             elif kind == 'load':
                 ds.load()
+            elif kind == 'dtype_spelling':
+                # the declared on-disk type of the geometry variables, spelled another way (xarray accepts all of these)
+                new = ds.copy()
+                for name in geom_vars(ds):
+                    var = new.variables[name]
+                    dt = numpy.dtype(var.encoding.get('dtype', var.dtype))
+                    if dt.kind in 'fiu':
+                        var.encoding['dtype'] = [dt.name, dt.str, dt.type, dt.char][arg % 4]
+                nh = add(new, cls)
+                handles[nh]['may_refuse'] = True
+                record_key(nh)
+            elif kind == 'other_byte_order':
+                # the same numbers held in the other byte order (as read by a big-endian reader): a dataset of its own
+                # (the type differs), whose key must not depend on how often it has been asked for
+                new = ds.copy(deep=True)
+                for name in geom_vars(ds):
+                    var = new.variables[name]
+                    vals = numpy.asarray(var.values)
+                    if vals.dtype.kind in 'fiu' and vals.dtype.itemsize > 1 and 'dtype' not in var.encoding:
+                        enc = dict(var.encoding)
+                        new[name] = (var.dims, vals.astype(vals.dtype.newbyteorder('S')), dict(var.attrs))
+                        new[name].encoding = enc
+                nh = add(new, new_geom_cls(cls))
+                handles[nh]['fragile'] = True
+                record_key(nh)
+                record_key(nh)
+                ctx.emit('probe', name='geometry_in_non_native_byte_order')
             elif kind == 'print_options':
                 # process-wide presentation state: how numpy *prints* arrays has nothing to do with the geometry
                 numpy.set_printoptions(precision=1 + arg % 5, threshold=3 + arg % 4, edgeitems=1, suppress=bool(arg % 2))
@@ -576,14 +619,14 @@ def _key_lifetime(ctx, plan, scratch):
                 record_key(nh)
             else:
                 raise ValueError(kind)
-            if kind in HISTORY_OPS and kind not in ('copy', 'copy_deep', 'copy_module', 'pickle'):
+            if kind in HISTORY_OPS and kind not in CREATES_HANDLE:
                 record_key(h)
         except Exception as e:
             info = observe.exc_info(e)
             n_err[0] += 1
             ctx.observe('msg%d' % n_err[0], info['msg'])
             ctx.emit('op_error', op=kind, exc=info['exc'], frame=info['frame'], n=n_err[0])
-            if len(handles) and (kind in NONGEOM_EDITS or kind in GEOM_EDITS or kind in ('copy', 'copy_deep', 'copy_module', 'pickle', 'persist')):
+            if len(handles) and (kind in NONGEOM_EDITS or kind in GEOM_EDITS or kind in CREATES_HANDLE + ('persist',)):
                 handles.append({'ds': None, 'cls': None})
     # every live handle's key once more at the end of the history
     for h, hd in enumerate(handles):
